@@ -4,6 +4,12 @@ Correspondence: `rotation_vec2mat`, `as_affine` (= `to_matrix44` + reflection fl
 `param` get/set, `from_matrix44` sign conventions, `compose` class dispatch + product,
 `inv`, compose/inv programs (affine family and generic `Transform`), `ChainTransform.apply`
 and `PolyAffine.apply` against the Lean model (exact rationals, tolerant compare).
+Second part (harness/props/c08_ext.py, Model/C08B.lean): `rotation_mat2vec` and `from_matrix44`
+in full with certified leaves, `to_matrix44` for every size / dtype, `slices2aff`,
+`subgrid_affine`, `inverse_affine`, constructors + operation histories on one object,
+`ChainTransform` construction rules and `param` histories, `PolyAffine` in full.
+Translator (harness/props/c08_tables.py): the literal tables and constants of affine.py /
+polyaffine.{py,c} are regenerated into Gen/C08Tables.lean, which the model is defined from.
 Oracle: the property's clauses evaluated on the real code.
 """
 from __future__ import annotations
@@ -15,6 +21,8 @@ from fractions import Fraction
 import numpy as np
 
 from harness.core import PropertyCheck
+from harness.props import c08_ext, c08_tables
+from harness.props.c08_ext import ExtMixin, f44_leaves
 from harness.util import Snapshot, errname, fr, frs, parse_rats
 
 CLASSES = ["Affine", "Affine2D", "Rigid", "Rigid2D", "Similarity", "Similarity2D"]
@@ -236,32 +244,64 @@ RT_DIRECT = 1e-10     # plain float evaluation of an exact rational formula
 RT_ROUND = 5e-7       # values that went through from_matrix44 (SVD, quaternion, acos, log/exp)
 
 
-class C08(PropertyCheck):
+class C08(ExtMixin, PropertyCheck):
     id = "C08"
     title = "Spatial transforms compose, invert and parametrise consistently"
-    lean_modules = ["NipyVerif.Props.C08"]
+    lean_modules = ["NipyVerif.Props.C08", "NipyVerif.Props.C08B"]
+    _build_spec = staticmethod(lambda spec: _build(spec))
+    _quad = staticmethod(lambda pts: _quad(pts))
+
+    def translators(self):
+        return [("NipyVerif/Gen/C08Tables.lean", c08_tables.lean_text())]
     driver = "Drivers/C08.lean"
     rule = ("cases are seeded: ordered class pairs (all 36, several parameter vectors each, built by "
             "param / 12-vector / 4x4 / negated 4x4 / raw dyadic 4x4), rotation vectors (angles incl. "
             "1e-300..1e-6, pi±1e-12..1e-3, >2pi, >MAX_ANGLE), 4x4 matrices of either determinant sign per "
             "class, well- and ill-formed parameter vectors, random compose/inv programs over affine and "
-            "generic leaves, pre/opt/post chains, polyaffine compositions; non-trivial = not the identity "
-            "transform on an empty point set; distinct by full JSON of the case")
+            "generic leaves, pre/opt/post chains, polyaffine compositions; rotation matrices for mat2vec "
+            "(the 24 cube-group matrices, rotation vectors with angles 0..1e-5 around the identity threshold, "
+            "pi±1e-15..1e-3 with mixed-sign axes, products of two rotations); to_matrix44 on every size 0..14 "
+            "with double / int / float32 dtype and values beyond the thresholds; slices (None / int / "
+            "non-integer start, step; 0..4 slices; mismatched shapes); constructor arguments (None, 12 "
+            "numbers in 8 shapes as float / int array / list of ints, 4x4 of either determinant sign, refused "
+            "shapes, non-arrays; radius incl. 0) followed by histories of 0..8 operations (param / "
+            "translation / rotation / scaling / pre_rotation assignments well- and ill-formed, from_matrix44, "
+            "copy); ChainTransform with every kind of pre / post / optimizable argument and 0..5 param "
+            "assignments; PolyAffine with 1..6 centres, affines as transforms or arrays, scalar / vector / "
+            "zero sigma, global affine as transform / array / None, apply / compose / left_compose, far "
+            "points (weight underflow); non-trivial = not the identity transform on an empty point set; "
+            "distinct by full JSON of the case")
     assumptions = [
         "norm, sin, cos, exp of the parameter vector are parameters of the model: the harness passes "
         "np.sqrt(np.sum(r**2)), np.sin, np.cos, np.exp values as exact dyadic rationals",
-        "scipy.linalg.svd factors, scipy.linalg.det and the cube root are parameters of the from_matrix44 "
-        "sign-convention model; rotation_mat2vec (transforms3d quaternion eigen-decomposition + acos) and "
-        "log are not modelled: from_matrix44 after as_affine is checked numerically (oracle + correspondence)",
-        "transforms3d.quat2axangle uses 2*acos(w): rotations of angle <= ~2e-8 rad are lost, so matrix "
-        "-> vector -> matrix reproduces the matrix to 2.2e-8 absolute only; tolerance 5e-7 relative on every "
-        "value that went through from_matrix44, 1e-10 on direct evaluations",
+        "scipy.linalg.svd factors, scipy.linalg.det, the cube root and log are *certified parameters* of the "
+        "from_matrix44 model (U diag(s) Vt = A and cbrt^3 = |det| are evaluated exactly by the model and the "
+        "residuals compared with 0 to 1e-13); exp(log s) = s is a hypothesis of the round-trip theorems",
+        "rotation_mat2vec = transforms3d quat2axangle(mat2quat(R)): numpy.linalg.eigh's eigen-pair, the two "
+        "rounded sums, math.sqrt (twice) and math.acos are certified parameters (K q = lam q, s^2 = Nq, "
+        "cos/sin of the returned half angle on the unit circle with cos = clamped w: residuals evaluated "
+        "exactly by the model, compared with 0 to 2e-14); the harness recomputes these leaves with the same "
+        "NumPy / math calls on the same matrix and the model's vector is compared with nipy's to 1e-13; that "
+        "cos/sin are the functions whose values certify acos, and the double-angle laws linking the half "
+        "angle to rotation_vec2mat's sin / cos, are hypotheses of vec2mat_mat2vec",
+        "transforms3d.quat2axangle uses 2*acos(w): rotations of angle <= ~2e-8 rad come back as the zero "
+        "vector in floating point (w rounds to 1), so matrix -> vector -> matrix reproduces the matrix to "
+        "2.2e-8 absolute only; tolerance 5e-7 relative on every value that went through from_matrix44, "
+        "1e-10 on direct evaluations",
+        "an integer-dtype _vec12 (Affine(list of 12 ints)) is modelled as it behaves (later assignments "
+        "truncate towards zero); histories that leave the class of the object (e.g. scaling assigned to a "
+        "Rigid) are tied to the model but not judged by the oracle (outside the property's quantifier)",
+        "to_matrix44(dtype=int): an entry within 1e-9 of an integer may truncate either way (tolerance 1); "
+        "float32 results are compared to 2e-7 relative",
         "Gaussian weights of PolyAffine (exp) are parameters of the model; the polyaffine.c kernel is "
         "rebuilt from /repo with gcc and called through ctypes, the .pyx argument checks are not exercised",
         "IEEE-754 rounding of matrix products / inverses is within the stated tolerances (scales in [1/4, 4])",
     ]
-    level_note = ("from_matrix44 ∘ as_affine = id is proved only relative to an SVD / rotation-vector "
-                  "hypothesis (from_to_matrix44_partial); the quaternion/acos/log step is numeric")
+    level_note = ("matrix -> vector -> matrix and as_affine ∘ from_matrix44 = id are proved for every "
+                  "assignment of the transcendental / LAPACK leaves that satisfies their exact certificates "
+                  "(vec2mat_mat2vec, from_to_matrix44, rigid_/similarity_from_to_matrix44); in floating point "
+                  "the certificates hold to ~1e-15 only, and the zero-angle branch of quat2axangle (rotations "
+                  "below 3 eps) carries an explicit bound instead of equality (mat2vec_identity_branch)")
     finding_keys = {}
 
     # ------------------------------------------------------------------ generation
@@ -355,6 +395,14 @@ class C08(PropertyCheck):
                           "other": _gen_spec(rng) if rng.random() < 0.2 else _spec(rng),
                           "pts": [[rng.choice([0.0, 1.0, -1.0, 2.0, 0.5, -3.25, 4.0, 6.0]) for _ in range(3)]
                                   for _ in range(rng.choice([1, 2, 4]))]})
+        # ---- second part: certified mat2vec, helpers, histories, chains, polyaffine in full
+        spec_fn = lambda r, cls: _spec(r, cls, allow_raw=False)      # noqa: E731
+        cases += c08_ext.gen_rotmats(rng, K * (150 if q else 6000), AXES, ANGLES)
+        cases += c08_ext.gen_tomat(rng, K * (60 if q else 1500))
+        cases += c08_ext.gen_slices(rng, K * (40 if q else 1000))
+        cases += c08_ext.gen_hist(rng, K * (150 if q else 6000), spec_fn, _raw34)
+        cases += c08_ext.gen_chain2(rng, K * (80 if q else 3000), spec_fn)
+        cases += c08_ext.gen_polyfull(rng, K * (60 if q else 2500), spec_fn)
         return cases
 
     # ------------------------------------------------------------------ per case
@@ -403,6 +451,8 @@ class C08(PropertyCheck):
             impl.append(("name", errname(e)))
             fail = (f"{sa['cls']}.compose({sb['cls']}) raised {type(e).__name__}: {e} "
                     f"(composing must never fail for supported combinations)")
+        if fail is None and not big:   # what the class promises about its own matrices
+            fail = c08_ext.class_invariant(sa["cls"], Ma, 1e-9 if sa["via"] in ("param", "vec12") else RT_ROUND)
         if big:     # beyond the MAX_DIST / LOG_MAX_DIST thresholds only to_matrix44 itself is compared
             return {"lines": lines, "impl": impl, "oracle": fail, "nontrivial": True,
                     "tags": tags + ["thresholded"], "mutated": snap.changed()}
@@ -535,7 +585,13 @@ class C08(PropertyCheck):
                 d = _far(t2.as_affine(), M, RT_ROUND * (1 + _mag(M[:3, :])))
                 if d:
                     fail = f"{c['cls']}(M).as_affine() != M: {d}"
-        return {"lines": [line], "impl": [obs], "oracle": fail, "nontrivial": True,
+        lines, impl = [line], [obs]
+        lv, nres = f44_leaves(c["cls"], M)       # from_matrix44 in full, with certified leaves
+        lines.append(f"from44 {c['cls']} {d0} {frs(M[:3, :].ravel())} {lv}")
+        v12 = np.asarray(t._vec12, dtype=float)
+        impl.append(("tagvals", "1" if t._direct else "0", v12.tolist() + [0.0] * nres,
+                     [1e-12 * (1 + _mag(v12))] * 12 + [1e-13 * (1 + _mag(M[:3, :3]))] * nres))
+        return {"lines": lines, "impl": impl, "oracle": fail, "nontrivial": True,
                 "tags": ["from44", "cls=" + c["cls"], "det<0" if np.linalg.det(A33) < 0 else "det>0",
                          "fresh" if c["d0"] else "stale-flag"], "mutated": snap.changed()}
 
@@ -757,6 +813,18 @@ class C08(PropertyCheck):
             if parts[0] != head:
                 return f"impl={head} model={parts[0]}"
             model_out = parts[1] if len(parts) > 1 else ""
+        elif kind == "tagvals":       # optional leading tag, per-value tolerances
+            tag, vals, atol = impl_obs[1], impl_obs[2], impl_obs[3]
+            if tag is not None:
+                parts = model_out.split(" ", 1)
+                if parts[0] != tag and not (tag == "ident" and parts[0] == "tiny"):
+                    return f"impl={tag} model={parts[0]}"
+                model_out = parts[1] if len(parts) > 1 else ""
+        elif kind == "headvals":      # "<statuses> | <flags>" prefix, then values
+            head, vals, atol = impl_obs[1], impl_obs[2], impl_obs[3]
+            if not (model_out + " ").startswith(head + " "):
+                return f"impl={head!r} model={model_out[:len(head) + 20]!r}"
+            model_out = model_out[len(head):]
         else:
             return "unknown observation kind"
         try:
@@ -766,8 +834,15 @@ class C08(PropertyCheck):
         if len(mv) != len(vals):
             return f"length impl={len(vals)} model={len(mv)}"
         for k, (a, b) in enumerate(zip(vals, mv)):
-            if not (abs(float(a) - float(b)) <= atol):
-                return f"index {k}: impl={float(a)!r} model={float(b)!r} (tolerance {atol:.3g})"
+            tol = atol[k] if isinstance(atol, (list, tuple)) else atol
+            if tol == float("inf"):
+                continue
+            try:
+                fb = float(b)
+            except OverflowError:
+                fb = float("inf") if b > 0 else float("-inf")
+            if not (abs(float(a) - fb) <= tol):
+                return f"index {k}: impl={float(a)!r} model={fb!r} (tolerance {tol:.3g})"
         return None
 
     # ------------------------------------------------------------------ shrinking
@@ -786,8 +861,56 @@ class C08(PropertyCheck):
             for key in ("pre", "post"):
                 if case[key] is not None:
                     yield {**case, key: None}
-        keys = [k for k in ("a", "b", "spec", "opt", "pre", "post", "glob", "other") if isinstance(case.get(k), dict)
-                and "nat" in case[k]]
+        k = case["kind"]
+        if k == "mat2vec" and "r2" in case:
+            yield {kk: v for kk, v in case.items() if kk != "r2"}
+        if k == "tomat":
+            for i, x in enumerate(case["t"]):
+                if x != 0:
+                    t = list(case["t"]); t[i] = 0.0
+                    yield {**case, "t": t}
+            if case["dtype"] != "double":
+                yield {**case, "dtype": "double"}
+        if k == "slices":
+            if len(case["idx"]) > 1:
+                yield {**case, "idx": case["idx"][:1]}
+            for i in range(len(case["sl"])):
+                if case["sl"][i] != [None, None]:
+                    sl = [list(x) for x in case["sl"]]; sl[i] = [None, None]
+                    yield {**case, "sl": sl}
+        if k == "hist":
+            ops = case["ops"]
+            if ops:
+                yield {**case, "ops": []}
+                yield {**case, "ops": ops[:len(ops) // 2]}
+                yield {**case, "ops": ops[len(ops) // 2:]}
+                for i in range(len(ops)):
+                    yield {**case, "ops": ops[:i] + ops[i + 1:]}
+            if case["arg"]["a"] != "none":
+                yield {**case, "arg": {"a": "none"}}
+            if case["radius"] != 100:
+                yield {**case, "radius": 100}
+        if k == "chain2":
+            if case["hist"]:
+                yield {**case, "hist": []}
+                yield {**case, "hist": case["hist"][-1:]}
+            for key in ("pre", "post"):
+                if case[key]["s"] != "none":
+                    yield {**case, key: {"s": "none"}}
+        if k == "polyfull":
+            if len(case["centers"]) > 1 and len(case["affs"]) == len(case["centers"]):
+                yield {**case, "centers": case["centers"][:1], "affs": case["affs"][:1]}
+                yield {**case, "centers": case["centers"][:2], "affs": case["affs"][:2]}
+            if case["mode"] != "apply":
+                yield {**case, "mode": "apply"}
+            if case["glob"] is not None:
+                yield {**case, "glob": None}
+            if case["as_arrays"]:
+                yield {**case, "as_arrays": False}
+            if case["sigma"] != 1.0:
+                yield {**case, "sigma": 1.0}
+        keys = [k for k in ("a", "b", "spec", "opt", "pre", "post", "glob", "other", "globspec")
+                if isinstance(case.get(k), dict) and "nat" in case[k]]
         for key in keys:        # whole transform -> identity of its class
             s = case[key]
             if any(x != 0 for x in s["nat"]) or s["via"] not in ("param",) or s["radius"] != 100:
